@@ -6,6 +6,7 @@ import GapicModel.Lemmas.Textwrap
 import GapicModel.Lemmas.WrapWhole
 import GapicModel.Lemmas.WrapWidth
 import GapicModel.Lemmas.RstWords
+import GapicModel.Lemmas.CodeLines
 import GapicModel.Pinned.Funcs
 /-
 C20 — whitespace clean-up never changes code meaning (fix_whitespace part).
@@ -188,6 +189,25 @@ theorem fix_ends_one_newline (s : List Char) :
     ∃ body, fixWhitespace s = body ++ ['\n'] ∧ ∀ c, body.getLast? = some c → isWs T c = false := by
   unfold fixWhitespace fixWhitespaceWith
   exact ⟨_, rfl, rstrip_last_not_ws T _⟩
+
+/-- **The whitespace post-processor only removes trailing blanks and surplus blank lines**: for EVERY source
+text, the code lines of `fix_whitespace(code)` — the non-blank lines, right-stripped, each with its indentation,
+in order (`Lemmas.CodeLines.codeLines`) — are exactly the code lines of `code`. No line is joined, split,
+re-indented, dropped or reordered; what changes is only whitespace at line ends and the number of blank lines
+(so the Python token stream outside multi-line string literals, and with it the AST, is the same: that last
+step is argued in DESIGN §7.20 and checked by the oracle with `ast.dump`, not proved here). Proof: each of the
+three extracted patterns can only match a blank stretch ending in a line break followed by kept text
+(`ws1_ctx`/`ws2_ctx`/`ws3_ctx`, through the regex engine's soundness theorem), and any two such stretches are
+interchangeable in every context (`ctx_blank_nl`). -/
+theorem fix_preserves_code_lines (s : List Char) :
+    Lemmas.CodeLines.codeLines (fixWhitespace s) = Lemmas.CodeLines.codeLines s :=
+  Lemmas.CodeLines.fixWhitespace_codeLines s
+
+/-- non-vacuity: a source whose blank-line runs and trailing blanks really change, with nested indentation -/
+example : Lemmas.CodeLines.codeLines (fixWhitespace "x = 1  \n\n\n\n\ndef f():\n    a = 1\n\n\n    b = 2\n\n\n".toList)
+    = ["x = 1".toList, "def f():".toList, "    a = 1".toList, "    b = 2".toList] ∧
+    fixWhitespace "x = 1  \n\n\n\n\ndef f():\n    a = 1\n\n\n    b = 2\n\n\n".toList
+      ≠ "x = 1  \n\n\n\n\ndef f():\n    a = 1\n\n\n    b = 2\n\n\n".toList := by decide
 
 /-! ## `textwrap` core (`_wrap_chunks`): words are kept, width is respected
 (helper lemmas and proofs: `Lemmas/Textwrap.lean`) -/
